@@ -1,0 +1,68 @@
+//go:build verif
+// +build verif
+
+package main
+
+// Verification hooks (build tag verif). verifEvent records one ndjson event per protocol step to the file
+// named by $OWSIM_TRACE (no-op when unset); events get a process-wide sequence number under one mutex,
+// so the file order is a linearisation. $OWSIM_PERTURB=<seed> makes every hook yield or sleep for a
+// random short time first, to shake the goroutine schedule.
+
+import (
+	"encoding/json"
+	"math/rand"
+	"os"
+	"runtime"
+	"strconv"
+	"sync"
+	"time"
+)
+
+var (
+	verifMu   sync.Mutex
+	verifFile *os.File
+	verifSeq  int
+	verifRng  *rand.Rand
+	verifOnce sync.Once
+)
+
+func verifInit() {
+	if fn := os.Getenv("OWSIM_TRACE"); fn != "" && !*writerMode {
+		verifFile, _ = os.Create(fn)
+	}
+	if s := os.Getenv("OWSIM_PERTURB"); s != "" {
+		if seed, err := strconv.ParseInt(s, 10, 64); err == nil {
+			verifRng = rand.New(rand.NewSource(seed))
+		}
+	}
+}
+
+func verifEvent(ev string, kv ...interface{}) {
+	verifOnce.Do(verifInit)
+	if verifRng != nil {
+		verifMu.Lock()
+		r := verifRng.Intn(100)
+		verifMu.Unlock()
+		switch {
+		case r < 40:
+			runtime.Gosched()
+		case r < 55:
+			time.Sleep(time.Duration(r) * 20 * time.Microsecond)
+		case r < 58:
+			time.Sleep(3 * time.Millisecond)
+		}
+	}
+	if verifFile == nil {
+		return
+	}
+	m := map[string]interface{}{"ev": ev}
+	for i := 0; i+1 < len(kv); i += 2 {
+		m[kv[i].(string)] = kv[i+1]
+	}
+	verifMu.Lock()
+	verifSeq++
+	m["seq"] = verifSeq
+	b, _ := json.Marshal(m)
+	verifFile.Write(append(b, '\n'))
+	verifMu.Unlock()
+}
